@@ -805,16 +805,19 @@ func c08Waiting(c *ctx, pr *Protocol) {
 		key := core.Key(rule, pr.Rel, r.Name+".Start", "resets-ok")
 		var resets []ssa.CallInstruction
 		cover := map[string]bool{}
+		isFull := map[ssa.CallInstruction]bool{}
 		for _, cs := range core.Calls(st) {
-			n := core.CalleeName(cs)
-			switch {
-			case strings.HasSuffix(n, ".resetOK"):
+			// recognised by what the callee does to the ok arrays, not by its name: clears every flag of
+			// every array (resetOK), or marks one whole committee as done (allOldOK / allNewOK)
+			switch flagInitKind(pr, core.Callee(cs)) {
+			case "full":
 				resets = append(resets, cs)
+				isFull[cs] = true
 				cover["old"], cover["new"], cover["all"] = true, true, true
-			case strings.HasSuffix(n, ".allOldOK"):
+			case "old":
 				resets = append(resets, cs)
 				cover["old"] = true
-			case strings.HasSuffix(n, ".allNewOK"):
+			case "new":
 				resets = append(resets, cs)
 				cover["new"] = true
 			}
@@ -839,7 +842,7 @@ func c08Waiting(c *ctx, pr *Protocol) {
 		if ok {
 			var full ssa.CallInstruction
 			for _, rc := range resets {
-				if strings.HasSuffix(core.CalleeName(rc), ".resetOK") {
+				if isFull[rc] {
 					full = rc
 				}
 			}
@@ -868,7 +871,16 @@ func c08Waiting(c *ctx, pr *Protocol) {
 		c.r.Check(ok, rule, key, c.fpos(st), "Start re-initialises every ok flag before sending and before returning successfully", "Start does not re-initialise all ok flags before its first send / successful return"+why+": flags of the previous round leak into this round's WaitingFor/CanProceed")
 	}
 	// resetOK sets every element false
-	if ro := pr.BaseFns["resetOK"]; ro != nil {
+	ro := pr.BaseFns["resetOK"]
+	if ro == nil {
+		// renamed: the private method of the base type that clears every flag
+		for _, f := range c.p.FuncsOfPkg(pr.Rel) {
+			if f.Parent() == nil && flagInitKind(pr, f) == "full" {
+				ro = f
+			}
+		}
+	}
+	if ro != nil {
 		key := fkey(rule, ro, "all-false")
 		okAll := true
 		arrs := map[string]bool{}
@@ -976,4 +988,44 @@ func c08Once(c *ctx, pr *Protocol) {
 			c.r.Check(ok, rule, key, c.pos(s.Send), "sent once per recipient in a loop over the party list", "a message is sent inside a loop that is not a single pass over the recipient list, or a broadcast is sent repeatedly")
 		}
 	}
+}
+
+// flagInitKind classifies a private method of a protocol package by its effect on the ok arrays:
+// "full" — stores false into every element of every ok array (a counted loop from 0 per array);
+// "old" / "new" — stores true into every element of oldOK / newOK; "" otherwise.
+func flagInitKind(pr *Protocol, g *ssa.Function) string {
+	if g == nil || g.Blocks == nil || g.Parent() != nil || !core.PrivateHelper(g) || core.RelPkg(g) != pr.Rel {
+		return ""
+	}
+	stores := okStores(g)
+	if len(stores) == 0 {
+		return ""
+	}
+	arrs := map[string]bool{}
+	allFalse, allTrue := true, true
+	for _, os := range stores {
+		l := loopIdx(core.Strip(os.idx))
+		if l == nil || l.Lo != 0 || l.HiIncl {
+			return ""
+		}
+		if os.val {
+			allFalse = false
+		} else {
+			allTrue = false
+		}
+		arrs[os.array] = true
+	}
+	want := 1
+	if isResharing(pr) {
+		want = 2
+	}
+	switch {
+	case allFalse && len(arrs) == want:
+		return "full"
+	case allTrue && len(arrs) == 1 && arrs["oldOK"]:
+		return "old"
+	case allTrue && len(arrs) == 1 && arrs["newOK"]:
+		return "new"
+	}
+	return ""
 }
